@@ -4,7 +4,7 @@ From Coq Require Import ZArith List Bool Arith Lia Permutation.
 Import ListNotations.
 Require Import Nib.Lib.Dec Nib.C10.Model Nib.C10.Spec Nib.C10.ProofsMedian Nib.C10.ProofsUpdate.
 Require Import Nib.C12.Model Nib.C12.Spec.
-Require Export Nib.C12.ProofsTally Nib.C12.ProofsReward Nib.C12.ProofsStep.
+Require Export Nib.C12.ProofsTally Nib.C12.ProofsReward Nib.C12.ProofsStep Nib.C12.ProofsSpread.
 Local Open Scope Z_scope.
 Local Arguments Z.mul : simpl never.
 Local Arguments Z.add : simpl never.
